@@ -5,6 +5,8 @@ import (
 	"context"
 	"errors"
 	"fmt"
+	"hash/crc32"
+	"io"
 	"os"
 	"reflect"
 	"runtime"
@@ -193,11 +195,60 @@ func c17Case(rep *report.Report, sc *idxScenario, ops []explore.Op, st *explore.
 	if err != nil {
 		panic(err)
 	}
+	// a snapshot stream that breaks off (k bytes delivered, then a read error) is not a snapshot: a restore
+	// that nevertheless reports success must have produced the snapshot's state, and one that reports failure
+	// must leave the old or the new database in full
+	imageB0 := snap()
+	for _, k := range []int{0, 1, len(data) / 2, len(data) - 1} {
+		var ipan interface{}
+		func() {
+			defer func() { ipan = recover() }()
+			db.RestoreFromReader(&brokenReader{data: data[:k]})
+		}()
+		vsync.WaitIdle()
+		rep.Count("interrupted_streams", 1)
+		var after *dump.Tree
+		verr := func() (err error) {
+			defer func() {
+				if r := recover(); r != nil {
+					err = fmt.Errorf("panic: %v", r)
+				}
+			}()
+			return db.View(func(tx *bbolt.Tx) error { after = dump.Tx(tx); return nil })
+		}()
+		isOld := verr == nil && after.Equal(imageB0)
+		isNew := verr == nil && stripMeta(after).Equal(stripMeta(imageA))
+		if ipan == nil && !isNew {
+			rep.Violation(sig("incomplete-snapshot-accepted"), label+fmt.Sprintf(": RestoreFromReader returned normally for a stream that broke off after %d of %d bytes, and the database is not the snapshot's state (read error: %v)", k, len(data), verr), replay)
+			return
+		}
+		if ipan != nil && !isOld && !isNew {
+			rep.Violation(sig("failed-restore-left-mixture"), label+fmt.Sprintf(": RestoreFromReader failed for a stream that broke off after %d of %d bytes (%v) and left neither the old nor the new database (read error: %v)", k, len(data), ipan, verr), replay)
+			return
+		}
+		if !lockFree("a failed RestoreFromReader") {
+			return
+		}
+		if !isOld {
+			break // (legitimately) restored already
+		}
+	}
+	atomic.StoreInt64(&l1, 0)
+	atomic.StoreInt64(&l2, 0)
 	var pan interface{}
+	route := crc32.ChecksumIEEE([]byte(label)) % 3
 	func() {
 		defer func() { pan = recover() }()
-		db.RestoreSnapshot(data)
+		switch route {
+		case 0:
+			db.RestoreSnapshot(data)
+		case 1: // a reader that hands out 4096-byte pieces and reports EOF together with the last one
+			db.RestoreFromReader(&chunkReader{data: data, chunk: 4096, eofWithLast: true})
+		default: // odd-sized pieces, EOF on a separate call
+			db.RestoreFromReader(&chunkReader{data: data, chunk: 1021})
+		}
 	}()
+	rep.Outcome(fmt.Sprintf("restore-route-%d", route))
 	vsync.WaitIdle()
 	_ = os.Remove(snapPath)
 	if pan != nil {
@@ -690,4 +741,46 @@ func c17MaxExecs(thorough bool) int {
 		return 150000
 	}
 	return 60000
+}
+
+// brokenReader delivers data and then fails with a non-EOF error (a dropped connection).
+type brokenReader struct {
+	data []byte
+	pos  int
+}
+
+func (b *brokenReader) Read(p []byte) (int, error) {
+	if b.pos >= len(b.data) {
+		return 0, errors.New("verif: snapshot stream broke off")
+	}
+	n := copy(p, b.data[b.pos:])
+	b.pos += n
+	return n, nil
+}
+
+// chunkReader delivers data in pieces of a fixed size.
+type chunkReader struct {
+	data        []byte
+	chunk       int
+	pos         int
+	eofWithLast bool
+}
+
+func (c *chunkReader) Read(p []byte) (int, error) {
+	if c.pos >= len(c.data) {
+		return 0, io.EOF
+	}
+	n := c.chunk
+	if n > len(p) {
+		n = len(p)
+	}
+	if n > len(c.data)-c.pos {
+		n = len(c.data) - c.pos
+	}
+	copy(p, c.data[c.pos:c.pos+n])
+	c.pos += n
+	if c.eofWithLast && c.pos >= len(c.data) {
+		return n, io.EOF
+	}
+	return n, nil
 }
